@@ -88,6 +88,16 @@ CHECKS["C06"] = dict(
    note="Trusted: Lean kernel, Model/Translate.lean (tied by real KeyGen/Sign runs with scripted synchroniser and backend), harness. Assumed: agreed list from C07, authenticated sources from C16.",
    technique="Lean 4 proof over arbitrary finite maps + differential correspondence through the real session set-up paths")
 
+CHECKS["C07"] = dict(
+   text="Lean 4 theorems over the synchroniser of one topic as a transition system in which honest members' handler steps interleave with the unserialised, non-atomic passes of their Synchronize goroutines and corrupted configured members send anything at any time: "
+        "the list a member settles on is strictly sorted, contains it, has exactly the expected size, and consists of configured members it heard from on the topic (sync_valid); two honest members that settle and one of which lists the other settle on the identical list "
+        "(sync_agree / continuations_agree); the continuation runs at most once, exactly when nil is returned, never after an error (result_consistent); the confirmation channel never fills up (responses_never_block). Liveness partial: in an all-honest run with no more callers "
+        "than expected every listed member answers a query with exactly the queried list (honest_responses_confirm); completion before the deadline is observed on real runs. "
+        "Tie: step-exact differential runs of a real Member, lockstep differential runs of real Synchronize goroutines through yield hooks, and monitored concurrent runs with scripted adversaries.",
+   design="4/C07",
+   note="Trusted: Lean kernel, Model/Disc.lean (tied three ways by the sync component), harness. Assumed: authenticated senders, HMAC tag collision freedom, well-formed Membership, expected >= 1. Two defects repaired (F25 two-pass read broke agreement; F26 a synchronisation expecting one member never completed).",
+   technique="Lean 4 proof by inductive invariants over an interleaving transition system + step-exact and lockstep differential correspondence + monitored adversarial runs")
+
 CHECKS["C12"] = dict(
    text="Lean 4 theorems over the handler tables as a transition system with one action per lock acquisition: for every interleaving of a session's caller and callback threads (late callbacks included) the tables hold nothing under its keys afterwards (sign_no_residue, dkg_no_residue), "
         "re-admission, refusal of a duplicate session without any change, inertness of late traffic, and non-interference: any global interleaving of any number of sessions on disjoint keys projects onto each signing session's own run (noninterference, by a simulation argument). "
